@@ -161,7 +161,8 @@ def norm_req(req):
 # ------------------------------------------------------------------------------
 def run_dispatch_case(case):
     res  = CaseResult()
-    reqs = [r for r in (norm_req(r) for r in case.get('reqs') or []) if r]
+    reqs = [r for r in (norm_req(r) for r in case.get('reqs') or []
+                        if isinstance(r, dict)) if r]
 
     nt = False
     n_spawn = 0
@@ -244,8 +245,12 @@ def run_dispatch_case(case):
                                 kind = {'lit': '%s_mismatch' % name,
                                         'env': 'request_sees_wrong_env',
                                         'cenv': 'request_sees_wrong_process_env'}[bad[0]]
-                                res.fail('%s:%s' % (kind, mcls if bad[0] == 'lit' else dcls),
-                                         bad[1])
+                                if bad[0] == 'cenv':
+                                    # the cause sits in an earlier dispatch, any mode
+                                    res.fail(kind, '%s request: %s' % (mode, bad[1]))
+                                else:
+                                    res.fail('%s:%s' % (kind, mcls if bad[0] == 'lit' else dcls),
+                                             bad[1])
                         if exc and (exc[0] or exc[1]):
                             res.fail('exc_on_success:%s' % mcls, repr(exc)[:300])
                 else:
